@@ -212,6 +212,18 @@ func genDoc(r *rand.Rand) ym {
 
 // genExecDoc draws a valid definition that the agent can execute quickly and
 // harmlessly: command steps only (no mail / http / sub-workflow / repeat).
+// genCommandLine: a harmless command line built from the shell-like token kinds the run-time
+// splitter (shellwords with command substitution) has to cope with.
+func genCommandLine(r *rand.Rand) string {
+	toks := []string{"a", "b c", "\"a b\"", "'c d'", "`echo x`", "$(echo y)", "$X", "${X}", "\\", "\"", "'", "`", "$(", ")", "|", ";", "&&", ">", "a\\ b", "\"\"", "''", "\"`echo q`\"", "$(echo \"p q\")", "#", "=", "--flag=v", "\t"}
+	cmd := pickStr(r, []string{"echo", "true", "echo", "printf"})
+	n := 1 + r.Intn(5)
+	for i := 0; i < n; i++ {
+		cmd += " " + toks[r.Intn(len(toks))]
+	}
+	return cmd
+}
+
 func genExecDoc(r *rand.Rand) ym {
 	var d ym
 	if r.Intn(3) == 0 {
@@ -248,6 +260,8 @@ func genExecDoc(r *rand.Rand) ym {
 			s = append(s, kv("command", "sh"), kv("script", "echo from script\nexit 0\n"))
 		case 2:
 			s = append(s, kv("command", pickStr(r, []string{"false", "sh -c 'exit 1'", "verif-no-such-binary x"})))
+		case 3:
+			s = append(s, kv("command", genCommandLine(r)))
 		default:
 			s = append(s, kv("command", pickStr(r, []string{"true", "echo hello", "echo $1 $X", "echo \"a b\" c"})))
 		}
